@@ -58,16 +58,85 @@ def value(coefflist, u, dim, per_order=False):
     return sum(r ** n * v for n, v in tot.items()) if tot else 0
 
 
-def impl_value(t, u, per_order=False):
-    """the implementation's evaluation with f_(n,l)(r) = r^n"""
-    if per_order:
-        d = t(np.array(u, dtype=float))
-        out = {}
-        for (n, l), v in d.items(): out[n] = out.get(n, 0) + v
-        return out
-    if len(t.coefflist) == 0: return 0
-    fnu = {(n, l): (lambda r, n=n: r ** n) for (n, l, c) in t.coefflist}
-    return t(np.array(u, dtype=float), fnu)
+# ------------------------------------------------------------------------------------------
+# no call into the library may modify its ARGUMENTS (evaluation points, operands, matrices): every call made by the
+# checks goes through `unchanged`, which compares the bytes of the arguments with a snapshot taken before the call
+class _Guard:
+    def __init__(self): self.calls = 0; self.events = []
+
+
+GUARD = _Guard()
+
+
+def _snap(v):
+    if hasattr(v, "coefflist"): return tuple((int(n), int(l), _snap(c)) for n, l, c in v.coefflist)
+    if isinstance(v, np.ndarray): return (v.shape, v.dtype.str, v.tobytes())
+    if isinstance(v, (list, tuple)): return tuple(_snap(x) for x in v)
+    if isinstance(v, dict): return tuple(sorted((repr(k), _snap(x)) for k, x in v.items()))
+    return repr(v)
+
+
+def _show(v):
+    if hasattr(v, "coefflist"): return "expansion with %d entries" % len(v.coefflist)
+    if isinstance(v, np.ndarray) and v.size <= 16: return v.tolist() if not np.iscomplexobj(v) else repr(v.tolist())
+    return type(v).__name__
+
+
+class unchanged:
+    """with unchanged("a+b", a=ta, b=tb, u=u): ...   records an event when an argument is not bit-identical afterwards"""
+    def __init__(self, label, **args):
+        self.label, self.args = label, args
+
+    def __enter__(self):
+        self.snap = {k: _snap(v) for k, v in self.args.items()}
+        self.before = {k: (np.array(v, copy=True) if isinstance(v, np.ndarray) and v.size <= 16 else None) for k, v in self.args.items()}
+        return self
+
+    def __exit__(self, et, ev, tb):
+        GUARD.calls += 1
+        for k, v in self.args.items():
+            if _snap(v) != self.snap[k]:
+                b = self.before[k]
+                GUARD.events.append({"call": self.label, "argument": k,
+                                     "before": (b.tolist() if b is not None and not np.iscomplexobj(b) else _show(v)),
+                                     "after": _show(v)})
+        return False
+
+
+def flush_guard(ck, prefix):
+    """report the recorded argument mutations (at most 3 replays per run, all counted)"""
+    ev = GUARD.events
+    ck.extra["library_calls_guarded"] = ck.extra.get("library_calls_guarded", 0) + GUARD.calls
+    ck.extra["argument_mutations"] = ck.extra.get("argument_mutations", 0) + len(ev)
+    seen = set()
+    for e in ev:
+        k = (e["call"].split(":")[0], e["argument"])
+        if k in seen or len(seen) >= 3: continue
+        seen.add(k)
+        ck.violation("the library modified its argument '%s' in place during %s (before %s, after %s)"
+                     % (e["argument"], e["call"], e["before"], e["after"]), dict(e, total_events=len(ev)), key=prefix + "-input-mutated")
+    GUARD.calls = 0; GUARD.events = []
+
+
+class RadialPowers(dict):
+    """fnu[(n,l)](r) = r^n for every (n,l): magnitude dependent, the same for every l, multiplicative in n"""
+    def __missing__(self, key):
+        n = key[0]
+        return lambda r, n=n: r ** n
+
+
+def impl_value(t, u, per_order=False, label="__call__"):
+    """the implementation's evaluation with f_(n,l)(r) = r^n AT THE ARRAY OBJECT u ITSELF (no copy: the caller's
+    array is what a user hands over, and it has to come back unchanged)"""
+    assert isinstance(u, np.ndarray) and u.dtype == np.float64
+    with unchanged(label, u=u, expansion=t):
+        if per_order:
+            d = t(u)
+            out = {}
+            for (n, l), v in d.items(): out[n] = out.get(n, 0) + v
+            return out
+        if len(t.coefflist) == 0: return 0
+        return t(u, RadialPowers())
 
 
 # ------------------------------------------------------------------------------------------
